@@ -210,6 +210,20 @@ def rough_clauses(c, result, cms, threshold, half=None, position_hyp=None):
     out.append(("PL/sound-every-returned-row-is-a-strict-local-maximum-above-threshold", Forall([N], sound)))
     out.append(("PL/complete-every-strict-local-maximum-above-threshold-is-returned", Forall([S, C, H, W], complete)))
     out.append(("PL/each-peak-once", Forall([N, N], distinct)))
+    if half is None:
+        # the rows are listed in increasing (sample, row, column, channel) order: together with
+        # sound/complete this makes the rows of one sample a function of that sample's maps
+        # alone (C12: no dependence on batch-mates, batch size or position in the batch)
+        def ordered(r1, r2):
+            k1 = [(sr([r1]), INT), (pr([r1, 1]), FLOAT), (pr([r1, 0]), FLOAT), (chr_([r1]), INT)]
+            k2 = [(sr([r2]), INT), (pr([r2, 1]), FLOAT), (pr([r2, 0]), FLOAT), (chr_([r2]), INT)]
+            lt = False
+            for (x, kind), (y, _) in reversed(list(zip(k1, k2))):
+                less, same = (V.i_lt(x, y), V.i_eq(x, y)) if kind == INT else (V.f_lt(x, y), V.f_eq(x, y))
+                lt = V.b_or(less, V.b_and(same, lt))
+            return V.b_implies(V.i_lt(r1, r2), lt)
+
+        out.append(("PL/rows-listed-in-(sample,row,column,channel)-order", Forall([N, N], ordered)))
     if half is not None:
         out.append(("PL/refined-point-within-half-a-patch-of-its-grid-cell", Forall([N], position)))
     return out
